@@ -133,9 +133,15 @@ func (m *MonC15) OnStepEnd(w *World, step int) {
 		return
 	}
 	// nothing derived from the message may reach a client
+	qname := ""
 	if strings.HasPrefix(class, "query/") {
-		// the answer also ends the query event's lock on the resource queue: events
-		// and access verdicts that arrived during the lock are released in this
+		for _, e := range log[start:] {
+			if e.Kind == "mq_complete" && strings.HasPrefix(e.Subject, "_EVQ.") {
+				qname = w.qevSubjects[e.Subject]
+			}
+		}
+		// the answer also ends the query event's lock on the resource queue: events,
+		// get answers and access verdicts that arrived during the lock are released in this
 		// step and frame legitimately; then only the cache check applies
 		for _, e := range log[start:] {
 			if e.Kind != "mq_complete" || !strings.HasPrefix(e.Subject, "_EVQ.") {
@@ -150,7 +156,7 @@ func (m *MonC15) OnStepEnd(w *World, step int) {
 				}
 			}
 			for _, p := range log[:start] {
-				if lockT >= 0 && p.T > lockT && ((p.Kind == "mq_ev" && strings.HasPrefix(p.Subject, "event."+name+".")) || (p.Kind == "mq_complete" && p.Subject == "access."+name)) {
+				if lockT >= 0 && p.T > lockT && ((p.Kind == "mq_ev" && strings.HasPrefix(p.Subject, "event."+name+".")) || (p.Kind == "mq_complete" && (p.Subject == "access."+name || p.Subject == "get."+name))) {
 					m.class("query_answer_releases_queued_work")
 					goto cache
 				}
@@ -165,6 +171,18 @@ func (m *MonC15) OnStepEnd(w *World, step int) {
 			Event string `json:"event"`
 		}
 		if json.Unmarshal(e.Payload, &f) == nil && f.Event != "" {
+			if qname != "" {
+				// a query answer can only make events of its own resource. Frames of
+				// other resources in this step are work the lock had held back: a
+				// subscriber that asked the cache for the (loaded) resource during the
+				// lock gets it now, and the event that waited for it goes out
+				if i := strings.LastIndexByte(f.Event, '.'); i > 0 {
+					if n, _ := splitRID(f.Event[:i]); n != qname {
+						m.class("query_answer_releases_other_resources_frame")
+						continue
+					}
+				}
+			}
 			m.viols = append(m.viols, Violation{Property: "C15", Class: "malformed_message_leaked", Step: step, Conn: e.Conn, T: e.T,
 				Message: fmt.Sprintf("the malformed message (%s) %q produced the client frame %s", class, trunc(op.P, 120), trunc(string(e.Payload), 200))})
 			break
